@@ -44,6 +44,7 @@ THEOREMS = [
     "C09_imp_cell_once",
     "C09_imp_data_aligned",
     "C09_imp_refused",
+    "C09_imp_data_once",
 ]
 
 CLASSES = ci.CLASSES
